@@ -57,7 +57,8 @@ MeaningSec(enc) ==
 Meaning(b) == [twp |-> MeaningTR(b.twp, <<"n", "s">>, DefNS(b.dns)),
                rge |-> MeaningTR(b.rge, <<"e", "w">>, DefEW(b.dew)),
                sec |-> MeaningSec(b.sec)]
-Builds == [twp : TREncodings, rge : TREncodings, sec : SecEncodings, dns : Defaults, dew : Defaults]
+\* (ocr: the ocr_scrub option; it may only touch look-alike letters inside the numbers, never a direction letter)
+Builds == [twp : TREncodings, rge : TREncodings, sec : SecEncodings, dns : Defaults, dew : Defaults, ocr : BOOLEAN]
 
 ---------------------------------------------------------------------------
 (* Part 3: edits *)
@@ -81,7 +82,7 @@ VARIABLES phase,   \* "start" | "built" | "wrapped" | "edited" | "rewrapped"
           base     \* the string before the edit
 vars == <<phase, build, str, comps, edit, base>>
 
-NoBuild == [twp |-> [e |-> "none"], rge |-> [e |-> "none"], sec |-> [e |-> "none"], dns |-> "unset", dew |-> "unset"]
+NoBuild == [twp |-> [e |-> "none"], rge |-> [e |-> "none"], sec |-> [e |-> "none"], dns |-> "unset", dew |-> "unset", ocr |-> FALSE]
 NoEdit == [op |-> "none", i |-> 0, c |-> "-"]
 
 Init == /\ phase = "start" /\ build \in Builds /\ str = <<>> /\ comps = Meaning(build)
@@ -99,7 +100,7 @@ Wrap == /\ phase = "built"
         /\ UNCHANGED <<build, comps, edit, base>>
 \* apply one edit to a wrapped string and wrap the result
 EditBase == /\ build.twp.e \in {"lower", "errph", "undefph"} /\ build.rge.e \in {"lower", "errph", "undefph"}
-            /\ build.sec.e \in {"pad", "errph", "undefph"} /\ build.dns = "unset" /\ build.dew = "unset"
+            /\ build.sec.e \in {"pad", "errph", "undefph"} /\ build.dns = "unset" /\ build.dew = "unset" /\ ~build.ocr
             /\ (build.twp.e = "lower" => build.twp.d = 1 /\ build.twp.n <= 999)
             /\ (build.rge.e = "lower" => build.rge.d = 2 /\ build.rge.n <= 999)
             /\ (build.sec.e = "pad" => build.sec.n <= 99)
